@@ -30,6 +30,9 @@ def run(pid, tier, replay=None):
         d = json.loads(mc.group(1)); d["stderr"] = (r.stderr or "")[-1200:]
         d["what"] = "sanitizer abort: the codec touched memory outside the buffer it was given"
         ck.violation("crash:%s" % d.get("f"), d)
+    elif r.returncode == 96 and re.search(r"^HANG ", r.stdout or "", re.M):
+        ck.violation("hang:codec", {"what": "a codec call did not return within 20 s (or the native sweep stalled)"})
+        return ck.finish()
     elif r.returncode != 0 or not m:
         raise Broken("harness failed rc=%s: %s" % (r.returncode, (r.stderr or "")[-1500:]))
     if m:
